@@ -209,6 +209,11 @@ def _interact_harness(c, mode, k=2):
                     res.fields.get("varname") == full and res.fields.get("function") is fn)
             st2, inf = run(it, it.getattr(res, "info"), [])
             c.prove("raises/PteraNameError-info-is-recorded-entry", st2 == "ok" and inf is info["x"])
+            # the error is normally caught OUTSIDE the with-block of the probe: by then the last probe was popped and _apply reset
+            # the function's table (__ptera_info__ = None); the error still exposes the recorded annotation and provenance
+            fn.attrs["__ptera_info__"] = None
+            st3, inf3 = run(it, it.getattr(res, "info"), [])
+            c.prove("raises/PteraNameError-info-survives-deactivation", st3 == "ok" and inf3 is info["x"], only=["C16"])
         else:
             if key is not None and nm == "KeyError":
                 # C16: a declared-only attribute/item target must fail with the ptera name error; other properties
